@@ -138,7 +138,10 @@ func c09Gen(t *rapid.T) c09Case {
 			}
 		}
 		rule := func(label string) [][]string {
-			switch rapid.IntRange(0, 8).Draw(t, label) {
+			switch rapid.IntRange(0, 9).Draw(t, label) {
+			case 9:
+				// no rule at all (an inspection that only counts through its exit status)
+				return [][]string{}
 			case 0, 1, 2:
 				return [][]string{match, {"ALLOW", pre + "insp-*"}, {"ALLOW", "*.link"}, {"DISALLOW", "*"}}
 			case 3:
